@@ -138,6 +138,51 @@ CHECKS.update({
         design_ref="DESIGN.md §4 C20"),
 })
 
+SCHEMA_NOTE = ("Trusted: Coq kernel; Schema/Json.v (hand-written standard semantics of the JSON Schema keywords the builder emits, "
+               "compared on every run with the independent validator jsonschema on the implementation's schemas), Schema/Build.v "
+               "(hand-written model of json_schema/schema.py + refs.py, compared structurally with the implementation on every "
+               "generated type), the JSON -> Gallina schema parser harness/schema_coq.py (fail-closed on unknown keywords). "
+               "Annotations (title, default, ...) carry no validation meaning and are not compared. No axioms.")
+
+CHECKS.update({
+    "C06": dict(
+        text="Coq: JSON Schema AST + standard validation semantics (jvalid), model of the schema builder; theorems: a Literal/Enum "
+             "schema accepts exactly the listed values, the schema built for a union (every branch of _visited_union: Any "
+             "absorption, merged type lists, null merged into a typed schema, anyOf) accepts exactly the disjunction of the "
+             "alternatives' schemas for any definitions and depth, and the pre-fix null merge is refuted. Partial: the full "
+             "induction 'schema accepts iff the deserialization spec accepts' is evaluated case by case (agree_case, vm_compute) "
+             "rather than proved. Tie: builder model = deserialization_schema (structural), jvalid = jsonschema (oracle), "
+             "deserialize accepts iff jsonschema validates (model-free), on generated types x data.",
+        note=SCHEMA_NOTE + " Common domain: literal start-anchored patterns, no integer-valued float, |int| < 2^1000, uniqueness "
+             "of set-typed arrays not compared, no fall_back_on_default.",
+        technique="Coq proof (union / literal schema lemmas) + three-way correspondence (builder model, validator model, jsonschema oracle)",
+        design_ref="DESIGN.md §4 C06"),
+    "C17": dict(
+        text="Coq theorems on the builder model: every $ref in the schema built for any type (any universe, recursion, options, "
+             "reference set) names an extracted reference (C17_refs_are_extracted_names) and the emitted definitions define every "
+             "extracted name (C17_extracted_names_are_defined): the document is closed. Tie: the implementation's schema and "
+             "definitions equal the model's (extraction rule all_refs / count > 1 / recursion included) on generated universes "
+             "with type_name overrides (string, factory, None); model-free checks of termination, $schema, meta-schema validity "
+             "in each dialect, $ref resolution under the version prefix, definitions_schema = inline $defs, name collisions "
+             "refused, for deserialization and serialization schemas in the 5 versions.",
+        note=SCHEMA_NOTE + " Meta-schema validity is decided by jsonschema.check_schema (trusted oracle). The serialization "
+             "builder is covered by the model-free checks only.",
+        technique="Coq proof (closedness by induction on the builder) + structural correspondence + meta-schema oracle",
+        design_ref="DESIGN.md §4 C17"),
+    "C18": dict(
+        text="Coq theorems about a model of versions.py over the schema AST, for every schema (any keywords, nesting, recursive "
+             "definitions) and every datum: the draft 2019-09 and draft-07 renderings accept exactly the instances of the "
+             "2020-12 schema, draft-07 being validated under its own rule that $ref excludes its siblings "
+             "(C18_draft_7_same_instances, C18_draft_7_ref_has_no_sibling); OpenAPI 3.1 is the identity. OpenAPI 3.0 is partial: "
+             "its conversion is modelled and compared structurally, its preservation is checked on the cases through the "
+             "documented nullable mapping, not proved. Tie: convert(model) = implementation output per version; per-dialect "
+             "jvalid = jsonschema Draft7 / 2019-09 validators; vocabulary and prefix checks at every nesting level.",
+        note=SCHEMA_NOTE + " OpenAPI 3.0 has no independent validator in the sandbox: it is read through the documented mapping "
+             "(nullable -> anyOf null).",
+        technique="Coq proof (structural induction on schemas, generic preservation lemma) + structural and oracle correspondence",
+        design_ref="DESIGN.md §4 C18"),
+})
+
 NOT_YET = {}
 
 
